@@ -1,6 +1,4 @@
 import Props.SlicesGen
 open Model.SlicesGen
-#print axioms entryLastN_eq
-#print axioms findHeads_eq
 #print axioms updateClock_eq
 #print axioms addNextEntry_eq
